@@ -716,23 +716,42 @@ func (r *Run) handle(m parkMsg) {
 }
 
 func (r *Run) drain() {
+	// Park messages arrive in a physically nondeterministic order (woken
+	// goroutines overlap for a few instructions); handle them in task-id
+	// order so that nothing observable depends on arrival order.
+	var ms []parkMsg
 	for {
 		select {
 		case m := <-r.parkCh:
-			r.handle(m)
+			ms = append(ms, m)
+			continue
 		default:
-			for {
-				select {
-				case p := <-r.panicC:
-					r.Panics = append(r.Panics, p)
-					continue
-				default:
-				}
-				break
-			}
-			return
 		}
+		break
 	}
+	sort.SliceStable(ms, func(i, j int) bool { return ms[i].t.ID < ms[j].t.ID })
+	for _, m := range ms {
+		r.handle(m)
+	}
+	var ps []PanicInfo
+	for {
+		select {
+		case p := <-r.panicC:
+			ps = append(ps, p)
+			continue
+		default:
+		}
+		break
+	}
+	sort.SliceStable(ps, func(i, j int) bool { return ps[i].Task < ps[j].Task })
+	r.Panics = append(r.Panics, ps...)
+}
+
+func (r *Run) handleOrdered(first parkMsg) {
+	raceDisable()
+	r.parkCh <- first
+	raceEnable()
+	r.drain()
 }
 
 //go:norace
@@ -917,7 +936,9 @@ func (r *Run) Schedule(fair bool, stop func() bool) Outcome {
 			select {
 			case m := <-r.parkCh:
 				tm.Stop()
-				r.handle(m)
+				// Wait for everybody woken at this instant, then handle in order.
+				synctest.Wait()
+				r.handleOrdered(m)
 				continue
 			case <-tm.C:
 				synctest.Wait()
